@@ -163,7 +163,7 @@ func (w *accWorld) conn(conns map[string]*accConn, name string) (*accConn, error
 	if err != nil {
 		return nil, err
 	}
-	c.Timeout = 2000 * time.Millisecond
+	c.Timeout = 3000 * time.Millisecond
 	cs := &accConn{name: name, c: c, legit: strings.HasPrefix(name, "l"), local: c.C.LocalAddr().String()}
 	if cs.legit {
 		cs.id = w.legit
@@ -388,11 +388,9 @@ func (w *accWorld) doStep(conns map[string]*accConn, st accStep) (J, error) {
 			// whatever comes back after the answer to the finish is the answer to the appended request
 			out["injserved"] = false
 			if !cs.dead {
-				cs.c.Timeout = 300 * time.Millisecond
-				if m, err := cs.c.ReadMsg(); err == nil && m.Status >= 200 && m.Status < 300 {
+				if m, err := cs.c.ReadMsgWithin(300 * time.Millisecond); err == nil && m.Status >= 200 && m.Status < 300 {
 					out["injserved"] = true
 				}
-				cs.c.Timeout = 2 * time.Second
 			}
 			// the appended bytes have ended this connection, one way or the other
 			cs.dead = true
